@@ -74,6 +74,12 @@ func (s *Sorts) typeName(t types.Type) string {
 	if n, ok := s.names[t]; ok {
 		return n
 	}
+	if u := unaliasDeep(t); u != t {
+		// `type Builder = cmds.Builder`: an alias is the same type, hence the same memory class and the same sort
+		n := s.typeName(u)
+		s.names[t] = n
+		return n
+	}
 	if b, ok := t.(*types.Basic); ok && b.Kind() < types.UntypedBool && int(b.Kind()) < len(types.Typ) && types.Typ[b.Kind()] != t {
 		// byte / rune are aliases: one memory class with uint8 / int32
 		n := s.typeName(types.Typ[b.Kind()])
@@ -361,4 +367,34 @@ func sortedKeys[V any](m map[string]V) []string {
 	}
 	sort.Strings(ks)
 	return ks
+}
+
+// unaliasDeep replaces alias types (also inside pointers, slices, arrays, maps and channels) by the types they denote.
+func unaliasDeep(t types.Type) types.Type {
+	switch x := t.(type) {
+	case *types.Alias:
+		return unaliasDeep(types.Unalias(x))
+	case *types.Pointer:
+		if e := unaliasDeep(x.Elem()); e != x.Elem() {
+			return types.NewPointer(e)
+		}
+	case *types.Slice:
+		if e := unaliasDeep(x.Elem()); e != x.Elem() {
+			return types.NewSlice(e)
+		}
+	case *types.Array:
+		if e := unaliasDeep(x.Elem()); e != x.Elem() {
+			return types.NewArray(e, x.Len())
+		}
+	case *types.Map:
+		k, e := unaliasDeep(x.Key()), unaliasDeep(x.Elem())
+		if k != x.Key() || e != x.Elem() {
+			return types.NewMap(k, e)
+		}
+	case *types.Chan:
+		if e := unaliasDeep(x.Elem()); e != x.Elem() {
+			return types.NewChan(x.Dir(), e)
+		}
+	}
+	return t
 }
